@@ -17,7 +17,7 @@ RULE = {"C08": "generated robot definitions: 1-4 components (own and inherited a
                "falsy value, None, preset on the class, set in __init__, private, generic alias, other component}; robotInit() "
                "runs for real.  Also: components that are StateMachines, two components of one class, falsy component / mode objects, robot attributes that are callable objects (instance with __call__, functools.partial, class object), FMS attached at start-up.  Non-trivial = >=2 components and >=1 of {prefixed, falsy, cross-component, error}; distinct = "
                "hash of the definition."}
-REQUIRED = {"C08": {"annotated-tunable-left-alone": 50, "class-level-default-replaced-in-createObjects": 200, "private-annotation-on-robot-class": 100, "rel:reannotated-in-subclass": 30, "constructor-annotations-are-strings": 50, "structural-or-mock-instance": 50, "falsy-component-or-mode": 100, "callable-robot-attribute": 50, "rel:plain": 200, "rel:prefixed": 100, "rel:both": 50, "rel:falsy": 100, "rel:subclass": 50, "rel:bool-for-int": 30,
+REQUIRED = {"C08": {"robot-setting-requested-by-a-component": 50, "annotated-tunable-left-alone": 50, "class-level-default-replaced-in-createObjects": 200, "private-annotation-on-robot-class": 100, "rel:reannotated-in-subclass": 30, "constructor-annotations-are-strings": 50, "structural-or-mock-instance": 50, "falsy-component-or-mode": 100, "callable-robot-attribute": 50, "rel:plain": 200, "rel:prefixed": 100, "rel:both": 50, "rel:falsy": 100, "rel:subclass": 50, "rel:bool-for-int": 30,
                     "rel:generic-alias": 30, "rel:preset-class": 50, "rel:preset-init": 50, "rel:private": 50, "rel:component-earlier": 50,
                     "rel:component-later": 50, "rel:absent": 50, "rel:wrong-type": 50, "rel:wrong-type-prefixed": 20, "rel:none": 20, "rel:ctor-param": 50,
                     "rel:inherited-annotation": 50, "rel:mode-target": 50, "rel:one-class-two-components": 50, "rel:one-statemachine-class-two-components": 20, "fms-attached-at-startup": 100,
@@ -43,6 +43,7 @@ def _types():
         Proto = typing.runtime_checkable(type("Proto", (typing.Protocol,), {"spin": lambda self: None}))
         HasSpin = type("HasSpin", (), {"spin": lambda self: None})
         TYPES.update({"Proto": Proto, "HasSpin": HasSpin})
+        TYPES.update({"List": typing.List, "Dict": typing.Dict, "Tuple": typing.Tuple})       # unsubscripted typing aliases
         TYPES.update({"T0": T0, "T1": T1, "T2": T2, "int": int, "str": str, "float": float, "list": list, "tuple": tuple,
                       "bool": bool, "list[int]": list[int], "tuple[int, int]": tuple[int, int], "dict[str, int]": dict[str, int]})
     return TYPES
@@ -85,6 +86,7 @@ def make_value(desc):
 GOOD = {  # annotation -> value descriptors that satisfy it
     "T0": [("inst", "T0"), ("inst", "T1"), ("mock", "T0")], "T1": [("inst", "T1")], "T2": [("inst", "T2"), ("mock", "T2")],
     "Proto": [("inst", "HasSpin")],
+    "List": [("list", [1]), ("list", [])], "Dict": [("dict", {"a": 1})], "Tuple": [("tuple", [1, 2])],
     "int": [("lit", 5), ("lit", 0), ("lit", True), ("lit", -3)], "str": [("lit", "x"), ("lit", "")],
     "float": [("lit", 1.5), ("lit", 0.0)], "list": [("list", [1]), ("list", [])], "tuple": [("tuple", [1, 2]), ("tuple", [])],
     "bool": [("lit", True), ("lit", False)], "list[int]": [("list", [1, 2]), ("list", [])], "tuple[int, int]": [("tuple", [1, 2])],
@@ -94,7 +96,8 @@ GOOD = {  # annotation -> value descriptors that satisfy it
 BAD = {"T0": [("inst", "T2"), ("lit", 3)], "T1": [("inst", "T0"), ("lit", "s")], "T2": [("inst", "T0")], "int": [("lit", "5"), ("lit", 1.0)],
        "str": [("lit", 5)], "float": [("lit", 1), ("lit", "1.0")], "list": [("tuple", [1])], "tuple": [("list", [1])], "bool": [("lit", 1)],
        "list[int]": [("tuple", [1])], "tuple[int, int]": [("list", [1, 2])], "dict[str, int]": [("list", [])],
-       "CallT": [("inst", "T0")], "partial": [("lit", 3)], "type": [("inst", "T0")], "Proto": [("inst", "T0"), ("lit", 3)]}
+       "CallT": [("inst", "T0")], "partial": [("lit", 3)], "type": [("inst", "T0")], "Proto": [("inst", "T0"), ("lit", 3)],
+       "List": [("tuple", [1])], "Dict": [("list", [])], "Tuple": [("list", [1])]}
 FALSY = {"int": ("lit", 0), "str": ("lit", ""), "float": ("lit", 0.0), "list": ("list", []), "tuple": ("tuple", []), "bool": ("lit", False),
          "list[int]": ("list", []), "dict[str, int]": ("dict", {})}
 
@@ -127,7 +130,7 @@ def gen_case(rng, uid):
         """returns attribute spec dict"""
         name = fresh()
         ann = rng.choice(list(GOOD))
-        rels = ["plain", "plain", "prefixed", "both", "falsy", "subclass", "bool-for-int", "generic-alias"]
+        rels = ["plain", "plain", "prefixed", "both", "falsy", "subclass", "bool-for-int", "generic-alias", "robot-option"]
         if not is_ctor:
             rels += ["preset-class", "preset-init", "private", "preset-tunable"]
         if others:
@@ -161,6 +164,14 @@ def gen_case(rng, uid):
             a["preset"] = rng.choice([("lit", 0), ("lit", None), ("lit", "keep"), ("inst", "T2")])
             if rng.random() < 0.5:
                 place(name, rng.choice(GOOD[ann]))
+        elif rel == "robot-option":
+            # a component asks for one of MagicRobot's own documented settings under its name
+            a["name"], a["ann"] = rng.choice([("control_loop_wait_time", "float"), ("error_report_interval", "float"),
+                                               ("use_teleop_in_autonomous", "bool")])
+            a["rel"] = "plain"
+            a["robot_option"] = True
+            if rng.random() < 0.5:
+                place(a["name"], ("lit", {"float": rng.choice([0.01, 0.05]), "bool": True}[a["ann"]]))
         elif rel == "preset-tunable":
             a["rel"] = "preset-class"
             a["ann"] = "float"
@@ -436,6 +447,12 @@ def run_case(acc, case):
                 init.__annotations__ = {a["name"]: ann_of(a["ann"]) for a in c["ctor"]}
             cls.__init__ = init
     robot_objs = {n: make_value(tuple(r["value"])) for n, r in case["robot_attrs"].items()}
+    for c_ in list(comps.values()) + list(case["modes"]):
+        for a_ in c_.get("attrs", []) + c_.get("base_attrs", []) + c_.get("ctor", []):
+            if a_.get("robot_option"):
+                acc.ev("robot-setting-requested-by-a-component")
+                if a_["name"] not in robot_objs:
+                    robot_objs[a_["name"]] = getattr(magicbot.MagicRobot, a_["name"])      # the framework's own default
     order, split = case["order"], case["split"]
     body0 = {"__annotations__": {n: _COMP_CLASSES[n] for n in order[:split]}}
     if stable_hash(case["uid"]) % 3 == 0:
